@@ -68,7 +68,9 @@ def handleToks (spec : Bool) : List String → Option String
       | "arrays" => some (CtorForm.arrays n)
       | "scalars" => some (CtorForm.scalars n)
       | _ => none
-    pure (if spec then specCtor k f else ctorOutcome k f).name
+    -- right arity, wrong types: outside the arity property, excluded from the spec comparison
+    if spec && ctorTypeConfusion k f then pure "out-of-scope"
+    else pure (if spec then specCtor k f else ctorOutcome k f).name
   | ["term", t] => do
     let t ← termOf t
     pure (if spec then specTerm t else termOutcome t).name
@@ -90,7 +92,9 @@ def handleShape (spec : Bool) (rest : String) : Option String :=
     let d ← natList d
     let s ← natList s
     if d.isEmpty then none
-    pure (if spec then specShape d s else shapeOutcome d s).name
+    -- single-cell 2-D/3-D mesh with a size-1 value of too high a rank: either outcome is allowed
+    if spec && shapeOutOfScope d s then pure "out-of-scope"
+    else pure (if spec then specShape d s else shapeOutcome d s).name
   | _ => none
 
 def handle (line : String) : String :=
